@@ -10,7 +10,7 @@ Open Scope Z_scope.
 
 Local Arguments NYield {C F W} w line it c.
 Local Arguments NDone {C F W} it c.
-Local Arguments NErr {C F W} f c.
+Local Arguments NErr {C F W} f it c.
 Local Arguments NPanic {C F W} site.
 Local Arguments NOOF {C F W}.
 
@@ -47,7 +47,7 @@ Fixpoint drain (fuel : nat) (it : siter) (c : C) (h : H) {struct fuel} : outcome
       | inr h2 => Stop h2
       end
   | NDone _ c' => Fin c' h
-  | NErr x c' => Fail x c' h
+  | NErr x _ c' => Fail x c' h
   | NPanic s => Crash s
   | NOOF => OutOfFuel
   end end.
@@ -71,11 +71,11 @@ Lemma next_S : forall f it c, next (S f) it c =
       match rest with
       | [] => NDone it c
       | SLet n e :: r => let (c1, v) := eval c e in
-          match v with inr x => NErr x c1 | inl z => next f (SI r Iterate) (setv c1 n z) end
+          match v with inr x => NErr x (SI r Iterate) c1 | inl z => next f (SI r Iterate) (setv c1 n z) end
       | SRow d l :: r => let (c1, v) := row_eval c d in
-          match v with inr x => NErr x c1 | inl w => NYield w l (SI r Iterate) c1 end
+          match v with inr x => NErr x (SI r Iterate) c1 | inl w => NYield w l (SI r Iterate) c1 end
       | SLoop v e body :: r => let (c1, m) := eval c e in
-          match m with inr x => NErr x c1
+          match m with inr x => NErr x (SI r Iterate) c1
           | inl m => next f (SI r (StartLoop {| lvar := v; lmax := m; lbody := body |})) c1 end
       | SReset :: r => next f (SI r Iterate) (reset c)
       | SWhile e body :: r => next f (SI r (StartWhile {| wcond := e; wbody := body |})) c
@@ -88,6 +88,7 @@ Lemma next_S : forall f it c, next (S f) it c =
       match next f inner c with
       | NYield w l inner' c' => NYield w l (SI rest (IterInner inner' ls)) c'
       | NDone _ c' => next f (SI rest (EndInner ls)) c'
+      | NErr x inner' c' => NErr x (SI rest (IterInner inner' ls)) c'
       | o => o
       end
   | EndInner ls =>
@@ -98,13 +99,14 @@ Lemma next_S : forall f it c, next (S f) it c =
                   else next f (SI rest Iterate) (pop c)
       end
   | StartWhile ws => let (c1, v) := eval c (wcond ws) in
-      match v with inr x => NErr x c1 | inl z =>
+      match v with inr x => NErr x (SI rest (StartWhile ws)) c1 | inl z =>
         if z =? 0 then next f (SI rest Iterate) c1
         else next f (SI rest (WhileInner (SI (wbody ws) Iterate) ws)) c1 end
   | WhileInner inner ws =>
       match next f inner c with
       | NYield w l inner' c' => NYield w l (SI rest (WhileInner inner' ws)) c'
       | NDone _ c' => next f (SI rest (StartWhile ws)) c'
+      | NErr x inner' c' => NErr x (SI rest (WhileInner inner' ws)) c'
       | o => o
       end
   end end.
@@ -118,7 +120,7 @@ Lemma drain_S : forall f it c h, drain (S f) it c h =
       | inr h2 => Stop h2
       end
   | NDone _ c' => Fin c' h
-  | NErr x c' => Fail x c' h
+  | NErr x _ c' => Fail x c' h
   | NPanic s => Crash s
   | NOOF => OutOfFuel
   end.
@@ -341,7 +343,7 @@ Lemma conv_const : forall k it c h (r : nres) o,
   (forall f, (k <= f)%nat -> next (S f) it c = r) ->
   match r with
   | NDone _ c' => o = Fin c' h
-  | NErr x c' => o = Fail x c' h
+  | NErr x _ c' => o = Fail x c' h
   | NPanic s => o = Crash s
   | _ => False
   end ->
@@ -357,6 +359,7 @@ Lemma conv_inner_gen : forall (wrap : siter -> siter) (after : siter),
      match next f inner c with
      | NYield w l inner' c' => NYield w l (wrap inner') c'
      | NDone _ c' => next f after c'
+     | NErr x inner' c' => NErr x (wrap inner') c'
      | o => o end) ->
   forall f inner c h o, drain f inner c h = o -> o <> OutOfFuel ->
     match o with
@@ -365,7 +368,7 @@ Lemma conv_inner_gen : forall (wrap : siter -> siter) (after : siter),
     end.
 Proof.
   intros wrap after Hw. induction f as [|f IH]; intros inner c h o Hd Ho; [simpl in Hd; congruence|].
-  rewrite drain_S in Hd. destruct (next f inner c) as [w line it c0|it c0|x c0|s|] eqn:Hn.
+  rewrite drain_S in Hd. destruct (next f inner c) as [w line it c0|it c0|x it c0|s|] eqn:Hn.
   - (* yield *)
     assert (Hy : forall f0, (f <= f0)%nat -> next (S f0) (wrap inner) c = NYield w line (wrap it) c0).
     { intros f0 Hf0. rewrite Hw. erewrite (next_mono _ _ _ _ Hn); [reflexivity|congruence|exact Hf0]. }
@@ -377,7 +380,7 @@ Proof.
   - (* done *)
     subst o. intros o' Ho'. eapply conv_silent with (k := f); [|exact Ho'].
     intros f0 Hf0. rewrite Hw. erewrite (next_mono _ _ _ _ Hn); [reflexivity|congruence|exact Hf0].
-  - subst o. eapply conv_const with (k := f) (r := NErr x c0); [|reflexivity].
+  - subst o. eapply conv_const with (k := f) (r := NErr x (wrap it) c0); [|reflexivity].
     intros f0 Hf0. rewrite Hw. erewrite (next_mono _ _ _ _ Hn); [reflexivity|congruence|exact Hf0].
   - subst o. eapply conv_const with (k := f) (r := NPanic s); [|reflexivity].
     intros f0 Hf0. rewrite Hw. erewrite (next_mono _ _ _ _ Hn); [reflexivity|congruence|exact Hf0].
@@ -441,13 +444,13 @@ Proof.
       * destruct s as [n e|d line|v e body|e body|].
         -- (* SLet *) destruct (eval c e) as [c1 [z|x]] eqn:Hev.
            ++ silent. rewrite Hev. reflexivity. eapply IHe; eauto.
-           ++ subst o. eapply conv_const with (k := O) (r := NErr x c1); [|reflexivity].
+           ++ subst o. eapply conv_const with (k := O) (r := NErr x (SI r Iterate) c1); [|reflexivity].
               intros; red_next. rewrite Hev. reflexivity.
         -- (* SRow *) destruct (row_eval c d) as [c1 [w|x]] eqn:Hev.
            ++ eapply conv_yield with (k := O) (w := w) (l := line) (it' := SI r Iterate) (c' := c1).
               { intros; red_next. rewrite Hev. reflexivity. }
               destruct (handler h (w, line) c1) as [[h2 c2]|h2]; [eapply IHe; eauto | congruence].
-           ++ subst o. eapply conv_const with (k := O) (r := NErr x c1); [|reflexivity].
+           ++ subst o. eapply conv_const with (k := O) (r := NErr x (SI r Iterate) c1); [|reflexivity].
               intros; red_next. rewrite Hev. reflexivity.
         -- (* SLoop *) destruct (eval c e) as [c1 [m|x]] eqn:Hev.
            ++ silent. rewrite Hev. reflexivity.
@@ -461,7 +464,7 @@ Proof.
                  all: subst o; pose proof (IHf ls _ _ _ r Hfl ltac:(congruence)) as Hc;
                    cbn beta iota in Hc; try exact Hc; congruence.
               ** silent. change (lmax ls) with m. rewrite Hm. reflexivity. eapply IHe; eauto.
-           ++ subst o. eapply conv_const with (k := O) (r := NErr x c1); [|reflexivity].
+           ++ subst o. eapply conv_const with (k := O) (r := NErr x (SI r Iterate) c1); [|reflexivity].
               intros; red_next. rewrite Hev. reflexivity.
         -- (* SWhile *) silent.
            set (ws := {| wcond := e; wbody := body |}).
@@ -525,7 +528,7 @@ Proof.
            ++ subst o. apply Hstart. destruct (IHe _ _ _ _ Hex ltac:(congruence)) as [fb [Hdb _]].
               exact (conv_while_inner r ws _ _ _ _ _ Hdb ltac:(congruence)).
            ++ congruence.
-      * subst o. eapply conv_const with (k := O) (r := NErr x c1); [|reflexivity].
+      * subst o. eapply conv_const with (k := O) (r := NErr x (SI r (StartWhile ws)) c1); [|reflexivity].
         intros; red_next. rewrite Hev. reflexivity.
 Qed.
 
@@ -681,7 +684,7 @@ Definition Good (r : nres) (it : siter) (c : C) : Prop :=
       | inr h2 => RConv it c h (Stop h2)
       end
   | NDone _ c' => forall h, RConv it c h (Fin c' h)
-  | NErr x c' => forall h, RConv it c h (Fail x c' h)
+  | NErr x _ c' => forall h, RConv it c h (Fail x c' h)
   | NPanic s => forall h, RConv it c h (Crash s)
   | NOOF => True
   end.
@@ -689,7 +692,7 @@ Definition Good (r : nres) (it : siter) (c : C) : Prop :=
 Lemma good_silent : forall r it c it1 c1,
   (forall h o, RConv it1 c1 h o -> RConv it c h o) -> Good r it1 c1 -> Good r it c.
 Proof.
-  intros r it c it1 c1 Hs Hg. destruct r as [w l it' c'|it' c'|x c'|s|]; cbn [Good] in *.
+  intros r it c it1 c1 Hs Hg. destruct r as [w l it' c'|it' c'|x it' c'|s|]; cbn [Good] in *.
   - intro h. specialize (Hg h). destruct (handler h (w, l) c') as [[h2 c2]|h2].
     + intros o Hc. apply Hs, Hg, Hc.
     + apply Hs, Hg.
@@ -707,10 +710,11 @@ Lemma good_wrap : forall (wrap : siter -> siter) (after : siter),
   Good (match next f inner c with
         | NYield w l inner' c' => NYield w l (wrap inner') c'
         | NDone _ c' => next f after c'
+        | NErr x inner' c' => NErr x (wrap inner') c'
         | o => o end) (wrap inner) c.
 Proof.
   intros wrap after Hw f inner c Hg Ha.
-  destruct (next f inner c) as [w l it' c'|it' c'|x c'|s|]; cbn [Good] in Hg.
+  destruct (next f inner c) as [w l it' c'|it' c'|x it' c'|s|]; cbn [Good] in Hg.
   - cbn [Good]. intro h. specialize (Hg h). destruct (handler h (w, l) c') as [[h2 c2]|h2].
     + apply (rconv_wrap_back wrap after Hw). exact Hg.
     + apply (rconv_bind_other wrap after Hw); [exact Hg | congruence].
@@ -812,7 +816,7 @@ Lemma drain_rconv : forall f it c h o, drain f it c h = o -> o <> OutOfFuel -> R
 Proof.
   induction f as [|f IH]; intros it c h o Hd Ho; [simpl in Hd; congruence|].
   rewrite drain_S in Hd. pose proof (next_good f it c) as Hg.
-  destruct (next f it c) as [w l it' c'|it' c'|x c'|s|]; cbn [Good] in Hg.
+  destruct (next f it c) as [w l it' c'|it' c'|x it' c'|s|]; cbn [Good] in Hg.
   - specialize (Hg h). destruct (handler h (w, l) c') as [[h2 c2]|h2].
     + apply Hg. eapply IH; eauto.
     + subst o. exact Hg.
